@@ -36,7 +36,9 @@ import (
 type M = map[string]interface{}
 
 type scenario struct {
-	V       int     `json:"v"`
+	V       int     `json:"v"`      // family on the wire (peer 10.0.0.9 / fd00::9)
+	Sock    int     `json:"sock"`   // family of the stack's socket (0: same as v; 6 with v=4: dual-stack socket, IPv4 peer)
+	V6Only  bool    `json:"v6only"` // IPV6_V6ONLY on the stack's socket
 	Role    string  `json:"role"`   // passive | active
 	Cookie  int     `json:"cookie"` // 0: normal, 1: SynRcvdCountThreshold=0 (every SYN gets a cookie), 2: threshold=1 (pressure)
 	Port    int     `json:"port"`   // passive: listening port; active: peer's port
@@ -175,6 +177,47 @@ func (r *runner) flush() {
 	}
 	r.mu.Unlock()
 	r.out.Flush()
+}
+
+func mapped(a []byte) []byte {
+	if len(a) != 4 {
+		return a
+	}
+	return append([]byte{0, 0, 0, 0, 0, 0, 0, 0, 0, 0, 0xff, 0xff}, a...)
+}
+
+// sameHost: an address reported by the sockets API names host a (an IPv4 host also in its v4-mapped form)
+func sameHost(got, a []byte) bool {
+	return bytes.Equal(got, a) || bytes.Equal(got, mapped(a))
+}
+
+// newSock creates the stack's socket in the scenario's socket family
+func (r *runner) newSock() (tcpip.Endpoint, *waiter.Queue) {
+	wq := &waiter.Queue{}
+	np := r.np
+	if r.sc.Sock == 6 {
+		np = wire.ProtoIPv6
+	} else if r.sc.Sock == 4 {
+		np = wire.ProtoIPv4
+	}
+	ep, err := r.h.S.NewEndpoint(tcp.ProtocolNumber, np, wq)
+	if err != nil {
+		vh.Fatal("NewEndpoint: %v", err)
+	}
+	if r.sc.V6Only {
+		if e := ep.SetSockOpt(tcpip.V6OnlyOption(1)); e != nil {
+			vh.Fatal("v6only: %v", e)
+		}
+	}
+	return ep, wq
+}
+
+// connAddr is the peer's address as the application of the stack's socket family writes it (v4-mapped on a v6 socket)
+func (r *runner) connAddr() tcpip.Address {
+	if r.sc.Sock == 6 && r.sc.V == 4 {
+		return tcpip.Address(mapped(r.paddr))
+	}
+	return tcpip.Address(r.paddr)
 }
 
 func (r *runner) peerPort(pp int) int {
@@ -444,11 +487,7 @@ func (r *runner) step(st M) {
 	op := gets(st, "op", "")
 	switch op {
 	case "listen":
-		wq := &waiter.Queue{}
-		ep, err := r.h.S.NewEndpoint(tcp.ProtocolNumber, r.np, wq)
-		if err != nil {
-			vh.Fatal("NewEndpoint: %v", err)
-		}
+		ep, wq := r.newSock()
 		r.lep, r.lwq = ep, wq
 		e1 := ep.Bind(tcpip.FullAddress{Port: uint16(r.sc.Port)}, nil)
 		var e2 *tcpip.Error
@@ -459,11 +498,7 @@ func (r *runner) step(st M) {
 		r.log(M{"ev": "listen", "port": r.sc.Port, "backlog": r.sc.Backlog, "err": errS(e1) + errS(e2)})
 		r.settle(true)
 	case "connect":
-		wq := &waiter.Queue{}
-		ep, err := r.h.S.NewEndpoint(tcp.ProtocolNumber, r.np, wq)
-		if err != nil {
-			vh.Fatal("NewEndpoint: %v", err)
-		}
+		ep, wq := r.newSock()
 		r.aep, r.awq = ep, wq
 		// bind first so that the local port is known before the SYN is emitted
 		if e := ep.Bind(tcpip.FullAddress{Port: uint16(geti(st, "lport", 0))}, nil); e != nil {
@@ -483,7 +518,7 @@ func (r *runner) step(st M) {
 			})
 		}
 		r.log(M{"ev": "connect", "lport": r.sport, "rport": r.sc.Port, "pinned": pin})
-		cerr := ep.Connect(tcpip.FullAddress{Addr: tcpip.Address(r.paddr), Port: uint16(r.sc.Port)})
+		cerr := ep.Connect(tcpip.FullAddress{Addr: r.connAddr(), Port: uint16(r.sc.Port)})
 		r.settle(false) // the ISS is drawn by the protocol goroutine: keep the source installed until it is parked
 		if pin {
 			vrand.VerifSetSource(nil)
@@ -521,7 +556,8 @@ func (r *runner) step(st M) {
 			la, _ := ep.GetLocalAddress()
 			pp := r.ppOf(int(ra.Port))
 			ev["pp"], ev["rport"], ev["lport"] = pp, int(ra.Port), int(la.Port)
-			ev["raddrok"] = bytes.Equal([]byte(ra.Addr), r.paddr) && bytes.Equal([]byte(la.Addr), r.saddr)
+			ev["raddrok"] = sameHost([]byte(ra.Addr), r.paddr) && sameHost([]byte(la.Addr), r.saddr)
+			ev["raddrlen"] = len(ra.Addr)
 			if old, ok := r.conns[pp]; ok {
 				old.Close()
 			}
@@ -533,7 +569,7 @@ func (r *runner) step(st M) {
 		if r.aep == nil {
 			vh.Fatal("up without connect")
 		}
-		err := r.aep.Connect(tcpip.FullAddress{Addr: tcpip.Address(r.paddr), Port: uint16(r.sc.Port)})
+		err := r.aep.Connect(tcpip.FullAddress{Addr: r.connAddr(), Port: uint16(r.sc.Port)})
 		res := "error"
 		switch err {
 		case nil, tcpip.ErrAlreadyConnected:
@@ -600,7 +636,7 @@ func runScenario(si int, sc scenario, out *bufio.Writer) int {
 		tcp.SynRcvdCountThreshold = 1000
 	}
 	rs := M{"ev": "reset", "sc": si, "role": sc.Role, "v": sc.V, "cookie": sc.Cookie, "port": sc.Port, "backlog": sc.Backlog, "tag": sc.Tag, "mtu": mtu,
-		"pinned": len(sc.ISS) == 2}
+		"pinned": len(sc.ISS) == 2, "sock": sc.Sock, "v6only": sc.V6Only}
 	for k, v := range sc.Info {
 		rs[k] = v
 	}
